@@ -261,7 +261,7 @@ func runC17(c *Ctx) {
 		// mesh level
 		{
 			n := 1 + c.Rng.Intn(6)
-			if k%100 == 3 {
+			if k%100 == 3 && k < 1000 {
 				// sizes around internal batch sizes (a batched / parallel rewrite of a mesh-level loop shows only there)
 				n = []int{4097, 256, 1025, 8193, 255, 4096, 257, 1023, 1024, 4095}[(k/100)%10]
 				c.Note("mesh.large")
